@@ -1,11 +1,105 @@
 package main
 
 import (
+	"context"
 	"encoding/json"
+	"errors"
 	"fmt"
 	"math/rand"
+	"os"
 	"strings"
+
+	"gorm.io/gorm"
 )
+
+// ---- fault points: an injected failure at EACH query of a load --------------------------------------------------------
+//
+// The property promises every loaded parent "exactly the child rows … none missing".  When one of the queries of a load
+// fails (the parent query, any preload level, the join-table query of a many2many relation, its second hop, a query below a
+// joined relation) the caller must either see an error or receive the complete result; a nil error together with parents
+// whose children are missing breaks "none missing" silently.  Latitude: WHICH error is reported, and what the destination
+// holds when an error is reported, is not judged.
+
+var c11FaultKinds = []string{"err", "cancel", "notfound"}
+
+var errC11Injected = errors.New("c11: injected driver failure")
+
+// runs cs.Op with cs.Fault armed on an opened world; fired = the K-th query was reached; queries = queries sent
+func c11RunFault(db *gorm.DB, rec *Recorder, cs c11Case) (got, want []string, err error, fired bool, queries int) {
+	ctx, cancel := context.WithCancel(context.Background())
+	defer cancel()
+	rec.Reset()
+	if cs.Fault != nil {
+		flt := *cs.Fault
+		rec.Fault = func(idx int, ev *Event) error {
+			if ev.Kind != "query" {
+				return nil
+			}
+			queries++
+			if queries-1 != flt.K {
+				return nil
+			}
+			fired = true
+			switch flt.Kind {
+			case "cancel":
+				cancel()
+				return context.Canceled
+			case "notfound":
+				return gorm.ErrRecordNotFound
+			}
+			return errC11Injected
+		}
+	} else {
+		rec.Fault = func(idx int, ev *Event) error {
+			if ev.Kind == "query" {
+				queries++
+			}
+			return nil
+		}
+	}
+	defer func() { rec.Fault = nil }()
+	got, want, err = c11ExecCase(db, ctx, cs)
+	return
+}
+
+func c11JudgeFault(r *Result, db *gorm.DB, rec *Recorder, cs c11Case) {
+	got, want, err, fired, _ := c11RunFault(db, rec, cs)
+	r.H("fault.outcome", fmt.Sprintf("%s fired=%v error=%v", cs.Fault.Kind, fired, err != nil))
+	if !fired || err != nil {
+		return // error reported (or the fault point does not exist)
+	}
+	if strings.Join(got, "\n") == strings.Join(want, "\n") {
+		r.H("fault.outcome", "nil error, complete result")
+		if os.Getenv("C11_DEBUG") != "" {
+			fmt.Fprintln(os.Stderr, "SWALLOWED", canon(cs.Op), canon(cs.Fault), got)
+		}
+		return
+	}
+	r.Violate(Violation{Kind: "e2e", Suite: "world-fault", Input: cs, Observed: map[string]interface{}{"got": got, "error": nil}, Expected: want,
+		Note: fmt.Sprintf("query #%d of the load was failed by the driver (%s), yet the finisher reported no error and the loaded associations are incomplete", cs.Fault.K, cs.Fault.Kind)})
+}
+
+// every fault point of one case
+func c11FaultPoints(r *Result, rng *rand.Rand, db *gorm.DB, rec *Recorder, cs c11Case, allKinds bool) {
+	cs.Fault = nil
+	got, want, err, _, queries := c11RunFault(db, rec, cs)
+	if err != nil || want == nil || strings.Join(got, "\n") != strings.Join(want, "\n") {
+		return // judged by the fault-free oracle
+	}
+	r.H("fault.queries", c11Bucket(queries))
+	for k := 0; k < queries && k < 16; k++ {
+		kinds := []string{c11FaultKinds[rng.Intn(len(c11FaultKinds))]}
+		if allKinds {
+			kinds = c11FaultKinds
+		}
+		for _, kind := range kinds {
+			c := cs
+			c.Fault = &c11Fault{K: k, Kind: kind}
+			r.Case("world-fault", canon(c), len(want) >= 1 && queries >= 2)
+			c11JudgeFault(r, db, rec, c)
+		}
+	}
+}
 
 // ---- finding F6b: nested joins + Preload below them on a single-struct destination ------------------------------
 
@@ -98,9 +192,20 @@ func c11Chains(cs c11Case) []c11Chain {
 	return out
 }
 
-func c11JudgeWorld(r *Result, cs c11Case, record bool) {
+func c11JudgeWorld(r *Result, cs c11Case, record bool) { c11JudgeWorldDB(r, cs, nil) }
+
+// db != nil: the world is already loaded there (the operations only read); anything suspicious is re-run on a fresh
+// database so that every reported input replays on its own
+func c11JudgeWorldDB(r *Result, cs c11Case, db *gorm.DB) {
 	f := c11Families[cs.World.Family]
-	got, want, err := c11RunCase(cs)
+	var got, want []string
+	var err error
+	if db != nil {
+		got, want, err = c11ExecCase(db, nil, cs)
+	}
+	if db == nil || err != nil || strings.Join(got, "\n") != strings.Join(want, "\n") {
+		got, want, err = c11RunCase(cs)
+	}
 	realPanic := err != nil && strings.HasPrefix(err.Error(), "panic:")
 	if chains := c11Chains(cs); len(chains) > 0 {
 		var ops [][]interface{}
@@ -164,15 +269,18 @@ func init() {
 		} else if tier == "search" {
 			worlds = 1500
 		}
-		fams := []string{"S", "C", "R", "U", "S", "R", "C"}
+		fams := []string{"S", "C", "R", "N", "U", "S", "R", "N", "C"}
 		c11JudgeWorld(r, c11F6bWitness(), true) // dedicated probe of the listed finding F6b
 		for i := 0; i < worlds && !expired(); i++ {
 			f := c11Families[fams[i%len(fams)]]
 			mode := 0
-			if i%9 == 8 {
+			if i%11 == 8 || i%11 == 3 {
 				mode = 1
 			}
+			c11DelHeavy = i%4 == 1
 			w := f.Gen(rng, mode)
+			c11DelHeavy = false
+			db, rec, closeFn := c11OpenWorldRec(f, w)
 			r.H("world.family", f.Name)
 			r.H("world.collides", fmt.Sprint(w.collides(f)))
 			for k := 0; k < 8; k++ {
@@ -183,6 +291,9 @@ func init() {
 				r.H("world.op", op.Kind+"/"+op.Shape)
 				if op.Twice || op.Unscoped {
 					r.H("world.flags", fmt.Sprintf("twice=%v unscoped=%v", op.Twice, op.Unscoped))
+				}
+				if op.Unscoped {
+					r.H("world.unscoped", c11UnscopedShape(op))
 				}
 				if op.Kind == "query" {
 					if op.All {
@@ -203,10 +314,29 @@ func init() {
 				if i%37 == 0 && k == 0 {
 					r.Sample(map[string]interface{}{"suite": "world", "op": op, "family": f.Name})
 				}
-				c11JudgeWorld(r, cs, true)
+				c11JudgeWorldDB(r, cs, db)
+				if k%2 == 0 {
+					c11FaultPoints(r, rng, db, rec, cs, tier == "thorough" && k%4 == 0)
+				}
 			}
+			closeFn()
 		}
 	})
+	replayers["C11/world-fault"] = func(r *Result, input json.RawMessage) {
+		var cs c11Case
+		if err := json.Unmarshal(input, &cs); err != nil || cs.Fault == nil {
+			r.Note("bad replay input: %v", err)
+			return
+		}
+		f := c11Families[cs.World.Family]
+		if f == nil {
+			r.Note("unknown family")
+			return
+		}
+		db, rec, closeFn := c11OpenWorldRec(f, cs.World)
+		defer closeFn()
+		c11JudgeFault(r, db, rec, cs)
+	}
 	replayers["C11/world"] = func(r *Result, input json.RawMessage) {
 		var cs c11Case
 		if err := json.Unmarshal(input, &cs); err != nil {
